@@ -13,6 +13,7 @@
 package main
 
 import (
+	"bytes"
 	"fmt"
 	"os"
 	"path/filepath"
@@ -22,11 +23,266 @@ import (
 
 	"elaverif/harness/hx"
 
+	"elaverif/harness/regnet"
 	"github.com/btcsuite/btcd/wire"
+
+	"github.com/elastos/Elastos.ELA/blockchain/indexers"
 	"github.com/elastos/Elastos.ELA/common"
+	"github.com/elastos/Elastos.ELA/core/types"
+	"github.com/elastos/Elastos.ELA/core/types/functions"
 	"github.com/elastos/Elastos.ELA/database"
 	"github.com/elastos/Elastos.ELA/database/ffldb"
 )
+
+// ---------------------------------------------------------------- chain-level stream
+//
+//	cnode | cdeliver <block> | cblock id len ntx | chdr id | ctx txid blockId off len | cgettx txid height | ctxmiss txid
+//
+// A real ChainStore (blockchain.NewChainStore on ffldb, with the transaction and unspent
+// indexers) inside a regnet node.  Signatures are re-made on every run (ECDSA), so no block bytes
+// travel in op lines: len/ntx/off/len come from the node's in-memory block (Block.TxLoc) and the
+// adapter reports structure (lengths, index offsets, ids the bytes deserialize to, region = slice).
+// Exec answers from the store: FetchBlock, FetchBlockHeader, the transaction index entry
+// (indexers.TxIndex.TxBlockRegion) + FetchBlockRegion, and ChainStore.GetTransaction with the
+// transaction cache switched off (MemoryFirst) so that it really reads the region.
+
+var sim = &regnet.Sim{Name: "c18", Maturity: 2}
+var lastReply string
+
+func dposBytes(b *types.Block) []byte {
+	buf := new(bytes.Buffer)
+	if err := (&types.DposBlock{Block: b}).Serialize(buf); err != nil {
+		panic("harness: serialize block: " + err.Error())
+	}
+	return buf.Bytes()
+}
+
+func chainExec(t []string) (string, bool) {
+	switch t[0] {
+	case "cnode":
+		closeAll()
+		sim.Exec([]string{"reset"})
+		sim.N.Params.MemoryFirst = true // no transaction cache in front of the region reads
+		return "ok", true
+	case "cdeliver":
+		lastReply = sim.Exec(append([]string{"deliver"}, t[1:]...))
+		return "done", true
+	case "cblock", "chdr":
+		b := sim.N.ByID(t[1])
+		if b == nil {
+			panic("harness: unknown block " + t[1])
+		}
+		h := b.Hash()
+		var raw, hdr []byte
+		err := sim.N.Store.GetFFLDB().View(func(tx database.Tx) error {
+			r, e := tx.FetchBlock(&h)
+			if e != nil {
+				return e
+			}
+			raw = append([]byte(nil), r...)
+			if t[0] == "chdr" {
+				r, e = tx.FetchBlockHeader(&h)
+				hdr = append([]byte(nil), r...)
+			}
+			return e
+		})
+		if err != nil {
+			return errCode(err), true
+		}
+		if t[0] == "chdr" {
+			return fmt.Sprintf("%d %v", len(hdr), len(raw) >= 84 && bytes.Equal(hdr, raw[:84])), true
+		}
+		var db types.DposBlock
+		if err := db.Deserialize(bytes.NewReader(raw)); err != nil {
+			return fmt.Sprintf("%d undecodable 0", len(raw)), true
+		}
+		return fmt.Sprintf("%d %s %d", len(raw), regnet.ID(db.Block.Hash()), len(db.Block.Transactions)), true
+	case "ctx", "ctxmiss":
+		tx := sim.N.TxByID(t[1])
+		if tx == nil {
+			panic("harness: unknown tx " + t[1])
+		}
+		h := tx.Hash()
+		ff := sim.N.Store.GetFFLDB()
+		region, err := indexers.NewTxIndex(ff).TxBlockRegion(&h)
+		if err != nil || region == nil {
+			return "none", true
+		}
+		var raw, stored []byte
+		err = ff.View(func(dbTx database.Tx) error {
+			r, e := dbTx.FetchBlockRegion(region)
+			if e != nil {
+				return e
+			}
+			raw = append([]byte(nil), r...)
+			r, e = dbTx.FetchBlock(region.Hash)
+			stored = append([]byte(nil), r...)
+			return e
+		})
+		if err != nil {
+			return errCode(err), true
+		}
+		got := "undecodable"
+		rd := bytes.NewReader(raw)
+		if txn, e := functions.GetTransactionByBytes(rd); e == nil {
+			if e = txn.Deserialize(rd); e == nil && rd.Len() == 0 {
+				got = regnet.ID(txn.Hash())
+			}
+		}
+		end := int(region.Offset) + int(region.Len)
+		same := end <= len(stored) && bytes.Equal(raw, stored[region.Offset:end])
+		return fmt.Sprintf("%s %d %d %s %v", regnet.ID(*region.Hash), region.Offset, region.Len, got, same), true
+	case "cgettx":
+		tx := sim.N.TxByID(t[1])
+		if tx == nil {
+			panic("harness: unknown tx " + t[1])
+		}
+		got, ht, err := sim.N.Store.GetFFLDB().GetTransaction(tx.Hash())
+		if err != nil {
+			return "none", true
+		}
+		return fmt.Sprintf("%d %s", ht, regnet.ID(got.Hash())), true
+	}
+	return "", false
+}
+
+func chainOracle(t []string, out string) (*hx.Violation, bool) {
+	switch t[0] {
+	case "cnode", "cdeliver":
+		return nil, true
+	case "cblock":
+		b := sim.N.ByID(t[1])
+		if want := fmt.Sprintf("%d %s %d", len(dposBytes(b)), t[1], len(b.Transactions)); out != want {
+			return viol("chain-block-differs", "FetchBlock through the chain store does not return the block that was stored: got "+clip(out)+" want "+want), true
+		}
+		return nil, true
+	case "chdr":
+		if out != "84 true" {
+			return viol("chain-header-differs", "FetchBlockHeader is not the 84-byte prefix of the stored block: "+clip(out)), true
+		}
+		return nil, true
+	case "ctx":
+		b := sim.N.ByID(t[2])
+		locs, _ := b.TxLoc()
+		want := "?"
+		for i, tx := range b.Transactions {
+			if regnet.ID(tx.Hash()) == t[1] {
+				want = fmt.Sprintf("%s %d %d %s true", t[2], locs[i].TxStart, locs[i].TxLen, t[1])
+			}
+		}
+		if out != want {
+			return viol("chain-tx-region-differs", "transaction index entry + FetchBlockRegion do not give the transaction: got "+clip(out)+" want "+want), true
+		}
+		return nil, true
+	case "cgettx":
+		if want := t[2] + " " + t[1]; out != want {
+			return viol("chain-gettx-differs", "ChainStore.GetTransaction: got "+clip(out)+" want "+want), true
+		}
+		return nil, true
+	case "ctxmiss":
+		if out != "none" {
+			return viol("chain-tx-stale-index", "a transaction that is not on the active chain is still in the transaction index: "+clip(out)), true
+		}
+		return nil, true
+	}
+	return nil, false
+}
+
+func genChainHistory(g *hx.Gen, steps int) {
+	r := g.R
+	emit := func(format string, a ...interface{}) string {
+		line := fmt.Sprintf(format, a...)
+		switch {
+		case line == "reset":
+			g.Emit("reset")
+			return g.Emit("cnode")
+		case strings.HasPrefix(line, "init "), strings.HasPrefix(line, "obs "):
+			return "ok"
+		case strings.HasPrefix(line, "deliver "):
+			g.Emit("cdeliver %s", strings.TrimPrefix(line, "deliver "))
+			return lastReply
+		}
+		panic("harness: unexpected regnet op " + line)
+	}
+	h := &regnet.HistGen{S: sim, R: r, Emit: emit}
+	h.Start()
+	active := h.Active
+	byTip := map[string]*regnet.Branch{}
+	hexOf := func(b *types.Block) string {
+		v, _ := strconv.ParseUint(regnet.ID(b.Hash()), 16, 64)
+		return strconv.FormatUint(v, 16)
+	}
+	var all []*types.Block
+	look := func(b *types.Block, onChain bool) {
+		id := regnet.ID(b.Hash())
+		g.Emit("cblock %s %d %d", id, len(dposBytes(b)), len(b.Transactions))
+		g.Emit("chdr %s", id)
+		locs, err := b.TxLoc()
+		if err != nil {
+			panic("harness: txloc: " + err.Error())
+		}
+		for i, tx := range b.Transactions {
+			tid := regnet.ID(tx.Hash())
+			if onChain {
+				g.Emit("ctx %s %s %d %d", tid, id, locs[i].TxStart, locs[i].TxLen)
+				g.Emit("cgettx %s %d", tid, b.Height)
+			}
+		}
+	}
+	onActive := func() map[string]bool {
+		m := map[string]bool{}
+		for _, b := range active.Blocks {
+			for _, tx := range b.Transactions {
+				m[regnet.ID(tx.Hash())] = true
+			}
+		}
+		return m
+	}
+	deliver := func(br *regnet.Branch, b *types.Block) *regnet.Branch {
+		nb := regnet.Extend(br, b)
+		byTip[hexOf(b)] = nb
+		all = append(all, b)
+		_, tip := h.Deliver(b)
+		if a, ok := byTip[tip]; ok {
+			active = a
+		}
+		return nb
+	}
+	for s := 0; s < steps; s++ {
+		c := r.Intn(100)
+		switch {
+		case c < 80 || len(active.Blocks) < 3:
+			b := h.HonestBlock(active, 3)
+			deliver(active, b)
+			look(b, true)
+		default: // a longer branch from 1–2 blocks back: disconnects blocks, their index entries must go
+			depth := 1 + r.Intn(2)
+			old := active
+			br := regnet.Fork(active, len(active.Blocks)-depth)
+			for k := 0; k <= depth; k++ {
+				b := h.HonestBlock(br, 3)
+				br = deliver(br, b)
+			}
+			on := onActive()
+			for _, b := range old.Blocks[len(old.Blocks)-depth:] {
+				look(b, false) // still in the block store
+				for _, tx := range b.Transactions {
+					if !on[regnet.ID(tx.Hash())] {
+						g.Emit("ctxmiss %s", regnet.ID(tx.Hash()))
+					}
+				}
+			}
+			for _, b := range active.Blocks[len(active.Blocks)-depth-1:] {
+				look(b, true)
+			}
+		}
+		if r.Chance(15) && len(active.Blocks) > 0 { // older blocks again (block files, caches)
+			b := active.Blocks[r.Intn(len(active.Blocks))]
+			look(b, true)
+		}
+	}
+	_ = all
+}
 
 type state struct {
 	dir string
@@ -161,9 +417,13 @@ func filesOnDisk() string {
 }
 
 func exec(t []string) string {
+	if out, ok := chainExec(t); ok {
+		return out
+	}
 	switch t[0] {
 	case "reset":
 		closeAll()
+		sim.Close()
 		return "ok"
 	case "open":
 		closeAll()
@@ -378,6 +638,12 @@ func expectRegion(o *ostate, h string, off, n uint32) string {
 }
 
 func oracle(t []string, out string) *hx.Violation {
+	if v, ok := chainOracle(t, out); ok {
+		if out == "panic" {
+			return viol("blockstore-panic", "chain store operation panicked: "+hx.LastPanic())
+		}
+		return v
+	}
 	if t[0] == "reset" {
 		os_ = nil
 		return nil
@@ -756,6 +1022,10 @@ func genManyFiles(g *hx.Gen) {
 
 func gen(g *hx.Gen) {
 	r := g.R
+	for h := 0; h < g.N(2, 12); h++ {
+		genChainHistory(g, g.N(25, 80))
+	}
+	sim.Close()
 	for h := 0; h < g.N(3, 40); h++ {
 		genManyFiles(g)
 	}
